@@ -211,10 +211,17 @@ def check_search_history_free(res, facts):
         dep = []
         search_fns = _callees_closure(facts, run.fn_path) if run.fn_path else None
         for f, org in o.ctx.origins.items():
-            if org in own or not org.startswith('synth_utils::quantizer::'):
+            if org in own or not org.lstrip('<').startswith('synth_utils::quantizer::'):
                 continue
             if search_fns is not None and org not in search_fns:
                 continue    # a guard evaluated before the search (the window test, wherever it was factored out to)
+            stack = o.ctx.origin_stacks.get(f)
+            if stack and search_fns is not None:
+                # a helper shared by the guard and the search (`NoteState::from_bit`): what counts is on whose behalf it ran -
+                # the first function on the call stack that is either the pitch-class guard or part of the search
+                first = next((p_ for p_ in stack[1:] if p_ in own or p_ in search_fns), None)
+                if first is not None and first in own:
+                    continue
             cs = fact_syms(f, o.ctx)
             if cs:
                 dep.append('%s in %s' % (cs, org.split('::')[-1]))
@@ -561,7 +568,7 @@ class SearchRun:
     def hook(self, it, st, fr, cfg, head):
         key = (fr.fn['path'], head)
         known = key in self.heads
-        if not fr.fn['path'].startswith('synth_utils::quantizer::') or (not known and len(self.heads) >= 2):
+        if not fr.fn['path'].lstrip('<').startswith('synth_utils::quantizer::') or (not known and len(self.heads) >= 2):
             it.havoc_loop(st, fr, cfg, head)
             return
         if not known:
